@@ -20,7 +20,9 @@ ASSUMPTIONS = [
 REQKINDS = [("HTTP/1.1", None), ("HTTP/1.1", "keep-alive"), ("HTTP/1.1", "close"), ("HTTP/1.0", None), ("HTTP/1.0", "keep-alive"), ("HTTP/1.0", "close"),
             ("HTTP/1.1", "TE, close"), ("HTTP/1.1", "Close")]      # the close option among several options / in another case
 PIECES = [[b"ab"], [], [b"ab", b"c"], [b"", b"ab"], [b"ab", b"", b"c"], [b"c"], [b"ab", b"cd"]]   # last: a declared length one short ends INSIDE the second piece
-CLMODES = ["exact", "absent", "short", "te-chunked"]      # last: no length, the app itself asks for chunked transfer (HTTP/1.1 requests only)
+CLMODES = ["exact", "absent", "short", "te-chunked", "httperror", "httperror-mid"]
+# httperror: the app raises httping.HTTPError (carrying its own, wrong, Content-Length header) instead of answering: the server
+#            renders the error itself; httperror-mid: no length declared, first piece yielded, then HTTPError is raised      # last: no length, the app itself asks for chunked transfer (HTTP/1.1 requests only)
 STATUSES = ["200 OK", "404 Not Found"]
 
 
@@ -32,7 +34,7 @@ def RULE(tier):
     return ("real http.Server over FakeNet; 1-3 requests on one connection (free choice), pipelined in one segment, sent one after "
             "the other, or one after the other each in two segments with service passes in between; the app may call start_response "
             "twice (the second call, with exc_info, replaces status and headers); per request: HTTP/1.0|1.1 x Connection absent|keep-alive|close|'TE, close'|'Close', scripted WSGI app status 200|404, "
-            "Content-Length exact|absent|shorter than body|absent with the app itself announcing chunked transfer, body pieces from 7 lists incl. empty pieces and a one-byte body (declared length 0 when cut short); server-side partial sends; "
+            "Content-Length exact|absent|shorter than body|absent with the app itself announcing chunked transfer|the app raising HTTPError before answering (with a wrong length of its own) or after its first piece, body pieces from 7 lists incl. empty pieces and a one-byte body (declared length 0 when cut short); server-side partial sends; "
             "all executions with <= %d deviations. Oracle: the received byte stream parses (independent stdlib parser) into exactly "
             "the expected responses in request order with the app's status, X-Idx header and body (cut at a declared length), each "
             "self-delimiting unless the connection then closes, and EOF arrives iff the last answered request was not persistent." % BOUND(tier))
@@ -100,6 +102,21 @@ def harness(job, ch):
         kind, status, cl, pieces = reqs[i]
         body = b"".join(pieces)
         headers = [("X-Idx", str(i)), ("Content-Type", "text/plain")]
+        if cl == "httperror":
+            def genx():      # (a generator: hio catches HTTPError where it steps the application's iterator)
+                from hio.core.http import httping as _h
+                raise _h.HTTPError(409, title="conflict", detail="scripted", headers={"X-Idx": str(i), "Content-Length": "999"})
+                yield b""
+            return genx()
+        if cl == "httperror-mid":
+            start_response(status, headers)
+
+            def gen():
+                from hio.core.http import httping as _h
+                if pieces:
+                    yield pieces[0]
+                raise _h.HTTPError(500, title="late", detail="after the head was sent")
+            return gen()
         if cl == "exact":
             headers.append(("Content-Length", str(len(body))))
         elif cl == "short":
@@ -193,13 +210,21 @@ def harness(job, ch):
             # a response to an HTTP/1.0 client cannot be chunked: without a declared length it is delimited by
             # closing the connection (RFC 7230 3.3.3 / 6.3), so keep-alive cannot be honoured for it
             kind, status, cl, pieces = reqs[i]
-            return persistent(kind) and not (kind[0] == "HTTP/1.0" and cl == "absent")
+            unframed = cl == "absent" or (cl == "httperror-mid" and bool(pieces and pieces[0]))    # (an error before anything was sent is rendered with a length)
+            return persistent(kind) and not (kind[0] == "HTTP/1.0" and unframed)
         expected = []
         for i, (kind, status, cl, pieces) in enumerate(reqs):
             body = b"".join(pieces)
             if cl == "short":
                 body = body[:max(0, len(body) - 1)]
-            expected.append((int(status[:3]), str(i), body, cl))
+            if cl == "httperror":
+                expected.append((409, str(i), None, cl))      # the server's own rendering of the error: body not compared
+            elif cl == "httperror-mid" and not (pieces and pieces[0]):
+                expected.append((500, None, None, cl))        # nothing had been sent yet: the server answers with the error itself
+            elif cl == "httperror-mid":
+                expected.append((int(status[:3]), str(i), pieces[0], cl))
+            else:
+                expected.append((int(status[:3]), str(i), body, cl))
             if not keeps_open(i):
                 break
         want_eof = not keeps_open(len(expected) - 1)
@@ -222,7 +247,7 @@ def harness(job, ch):
                     last = i == len(expected) - 1
                     if st != wst or hd.get("x-idx") != widx:
                         viol.append(("response-order-or-status:%s" % tag, "response %d has status %s idx %s expected %s/%s; %s" % (i, st, hd.get("x-idx"), wst, widx, desc)))
-                    elif body != wbody:
+                    elif wbody is not None and body != wbody:
                         viol.append(("response-body:%s:cl-%s" % (tag, cl), "response %d body %r expected %r; %s" % (i, body, wbody, desc)))
                     if not selfdel and not (last and want_eof):
                         viol.append(("not-self-delimiting:%s:%s:cl-%s" % (tag, reqs[i][0][0].replace("/", ""), cl),
